@@ -72,6 +72,15 @@ CHECKS["C17"] = dict(
     note=QE_NOTE + " The text-level round trip (tokenisation of rendered lines) is checked by the stream, the theorems cover operators and tree structure.",
     technique="Coq proof (operator table, postfix/stack-machine round trip by induction on trees) + in-Coq differential correspondence of parse -> String() -> parse in both modes", design="6/C17")
 
+CHECKS["C03"] = dict(
+    text="Theorems (Coq, all finite histories of backend mutations, delta updates over contiguous windows, due/not-due full scans, aborted updates, timeperiod flips): composeTimestampFilter selects exactly the given timestamps; every served host/service row is one of its object's real versions at every moment (row integrity, under the stated stamp hypothesis; refuted by witness for backends without last_update when strings change with unchanged last_check = known finding D19) and never older than one served before; without aborts every mutation stamped before the window end is in the cache; after the backend went quiet the cache converges within ceil(m/149) cycles incl. after aborted cycles; timeperiod refresh. Stream: real Peer against a scripted backend with version stamps replicated into int and string columns, UpdateDelta/periodicUpdate steps with explicit windows and shifted time, injected connection errors; all dynamic columns compared after every step.",
+    note="Trusted: Coq kernel + vm_compute; harness and scripted backend; wall-clock effects (time.Now inside updateFullScan, the minute ticker) are driven, goroutine schedules belong to C14. Axioms: none. Known finding D19 is reported as KNOWN-FINDING for exactly its input class.",
+    technique="Coq proof (invariants over update histories, convergence by iteration) + in-Coq differential correspondence against a real Peer and a scripted backend", design="6/C03")
+CHECKS["C16"] = dict(
+    text="Theorems (Coq, all inputs): the final row has exactly one cell per requested column in request order for every mix/order/duplication of backend and LMD-side columns and sort keys inside or outside the column list; without Limit the result is a permutation of the union of all reachable backends' rows; with Limit at most that many genuine rows; sorted by the Sort keys; Stats counters and sums add up over the backends (avg = mean of the backends' averages, min/max over the reported numbers - stated precisely); unreachable backends are listed in the failed map; the sub-query carries the client's filter, stats and the backend-side columns. Stream: real daemon with up to 4 real Peers against scripted backends with scripted log rows and distinct stats numbers, some unreachable; client response and the sub-queries received by the backends compared with the model; crash-prone cases run in child processes.",
+    note="Trusted: Coq kernel + vm_compute; harness, scripted backend and its log front end. Axioms: none.",
+    technique="Coq proof (splice/merge/sort/limit model of the pass-through pipeline) + in-Coq differential correspondence against real peers and scripted backends", design="6/C16")
+
 NOT_APPLICABLE = {}
 
 
